@@ -579,8 +579,7 @@ def _quant(I, a, isall):
     k = z3.Int(I.st.fresh_name('q'))
     rng = z3.And(k >= zint(lo), k < zint(hi))
     st = I.st
-    st.solver.push()
-    st.solver.add(rng)
+    st.push(rng)
     old_branch = st.branch
 
     def nb(cond):
@@ -589,19 +588,16 @@ def _quant(I, a, isall):
             return True
         if z3.is_false(c):
             return False
-        ft = st.feasible(c)
-        ff = st.feasible(z3.Not(c))
-        if ft and not ff:
-            return True
-        if ff and not ft:
-            return False
-        raise Unsupported('quantifier body needs a case split')
+        d = st.decide(c)
+        if d is not None:
+            return d
+        raise Unsupported('quantifier body needs a case split on %s' % str(c)[:300])
     st.branch = nb
     try:
         body = I.truth_term(I.call(f, [SV(k, 'int')], {}))
     finally:
         st.branch = old_branch
-        st.solver.pop()
+        st.pop()
     body = z3.BoolVal(body) if isinstance(body, bool) else body
     return SV(z3.ForAll([k], z3.Implies(rng, body)) if isall else z3.Exists([k], z3.And(rng, body)), 'bool')
 
